@@ -50,4 +50,8 @@ def classify(prop, merged, known):
         else:
             viol.append(v)
     lines = ["KNOWN-FINDING: property=%s %s" % (prop, known[(prop, k)]) for k in sorted(seen)]
+    # every listed finding of this property gets its line; one that this run's workload did not reproduce says so
+    for (p, k) in sorted(known):
+        if p == prop and k not in seen:
+            lines.append("KNOWN-FINDING: property=%s %s [listed; not reproduced by this run's workload]" % (prop, known[(p, k)]))
     return {"violations": viol, "known_seen": seen, "known_lines": lines}
